@@ -65,7 +65,7 @@ CHECKS = {
     ),
     "C14": (
         "exploration",
-        "exhaustive grid enumeration of proposals x totals x bounds on the real constrain_sum_bounded, and of proposal vectors through a real Optimization with TotalSpendConstraint / package adjustments",
+        "exhaustive grid enumeration of proposals x totals x bounds on the real constrain_sum_bounded, and of proposal vectors through a real Optimization (solver non-convergence injected at every proposal) with TotalSpendConstraint / package adjustments",
         "Every combination of the proposal, total and bound alphabets for n <= 3/4 programs (240k calls quick) is passed to the real function and the returned vector checked against total and bounds (or a signal required); the same for TotalSpendConstraint driven through Optimization.get_hard_constraints/constrain_instructions with plain, paired and package adjustments, and for SpendingPackageAdjustment proportions.",
         "Continuous-domain claim: only the grid is decided. SLSQP inside scipy is part of the code under test, not trusted.",
         "5/C14",
@@ -107,7 +107,7 @@ CHECKS = {
     ),
     "C17": (
         "model_checking",
-        "schedule enumeration: every assignment of samples to forked workers (up to renaming) executed on the real sampling code under a virtual fork pool; fork model validated against a real multiprocessing run and a raw os.fork probe",
+        "schedule enumeration: every assignment of samples to forked workers (up to renaming) executed on the real sampling code under a virtual fork pool, combined with every placement of refused initialisation attempts (environment answers); fork model validated against a real multiprocessing run and a raw os.fork probe",
         "multiprocessing.pool.Pool and sc.parallelize are replaced by a virtual pool that reproduces what a forked worker inherits (generator state, pickled task); all set partitions of N <= 5/6 jobs into <= 4 workers are executed for every uncertain-quantity variant, prior generator state and entry point, and every execution is checked for pairwise-distinct samples, untouched sources and equality with the unsampled run when there is no uncertainty.",
         "The OS scheduler is not controlled; the virtual pool's fork model is bound to reality by two real-pool runs and an os.fork probe per run.",
         "5/C17",
@@ -121,7 +121,7 @@ CHECKS = {
     ),
     "C08": (
         "model_checking",
-        "explicit-state exploration of all call histories up to depth 2/3 over an 11-operation alphabet on the real code, with bit-identity of outputs and full-snapshot equality of inputs checked after every operation; fresh-process repetition under varied hash seeds",
+        "explicit-state exploration of all call histories up to depth 2/3 over a 15-operation alphabet on the real code, with bit-identity of outputs and full-snapshot equality of inputs checked after every operation; fresh-process repetition under varied hash seeds",
         "Every sequence of operations (runs of two different projects, model deep-copy / pickle round trips, result copies and save/load, scenario, zero-uncertainty sampling, optimisation, calibration) up to the depth bound is executed from fresh objects; after each operation the outputs must be bit-identical to those of the same operation from the initial state and every input object must be structurally unchanged. No state merging is performed, so hidden global state cannot be abstracted away.",
         "Two generated projects; the fresh-process clause is repetition (3 sub-processes), not enumeration.",
         "5/C08",
@@ -135,7 +135,7 @@ CHECKS = {
     ),
     "C16": (
         "model_checking",
-        "explicit-state exploration of edit histories (all sequences up to length 2/3 over a 13-operation alphabet) on the real objects with a differential oracle against objects rebuilt from their own exported spreadsheets; exhaustive round trips of generated and library files",
+        "explicit-state exploration of edit histories (all sequences up to length 2/3 over a 22-operation alphabet) on the real objects with a differential oracle against objects rebuilt from their own exported spreadsheets; exhaustive round trips of generated and library files",
         "Every history of editing operations within the bound is replayed on fresh objects; in every reached state the live objects must simulate like the objects rebuilt from their own exports, the export must be a fixed point, and the same operation applied to the rebuilt objects must lead to the same behaviour (so no hidden cache can matter). Round trips of every generated structure class and every loadable library file are compared for content and behaviour.",
         "Binary files of the current version only; library files that do not load are C18's concern.",
         "5/C16",
